@@ -227,7 +227,11 @@ def search(res, tier, boost=False):
             ht = 2.0**-lt
             kt = rng.choice([0, 1, 3, rng.randrange(2**lt)])
             stubs.append(StubElem((kt * ht, (kt + 1) * ht), addr_interval(gamma, (pc, lx, rng.randrange(2**lx))), gamma.pw_gamma[pc]))
-        SL._init_elems(stubs)
+        try:
+            SL._init_elems(stubs)
+        except Exception:  # noqa: BLE001 - the operator refuses elements that are not mesh elements: this section is skipped
+            res.bump('thin_stub_section_skipped')
+            stubs = []
         for e in stubs:
             ta, tb = map(float, e.time_interval)
             hx = float(e.space_interval[1] - e.space_interval[0])
@@ -238,4 +242,29 @@ def search(res, tier, boost=False):
                     if not taus or hx**2 / min(taus) > 16:
                         continue
                     check(e, t, xh, sweep=True)
+    # long-lived operator, re-created meshes (example.py --refinement uniform --grading): evaluate by the operator created in
+    # iteration 0 on the elements of the mesh object of iteration k, prepared as ErrorEstimator.residual does
+    # (`_init_elems(elems)`), against an operator created on that mesh - the two must agree bit for bit
+    from ..slchecks import regrid_iterations
+    for cname in ('UnitSquare', 'Circle') if tier == 'quick' else ('UnitSquare', 'Circle', 'LShape'):
+        for k, mesh_k, els, old, fresh in regrid_iterations(cname, n_iter=3 if cname != 'LShape' else 2):
+            old['SL']._init_elems(els)
+            if k == 0:
+                continue
+            gam = mesh_k.gamma_space
+            Lk = float(gam.gamma_length)
+            for _ in range(25 if tier == 'quick' else 100):
+                e = rng.choice(els)
+                t = float(e.time_interval[0]) + rng.uniform(0.2, 3.0) * float(e.h_t)
+                xh = rng.uniform(0, Lk)
+                x = gam.eval(np.array([xh])).reshape(2, 1)
+                try:
+                    a_, b_ = old['SL'].evaluate(e, t, xh, x), fresh['SL'].evaluate(e, t, xh, x)
+                except AssertionError:
+                    continue
+                res.count(('regrid-eval', cname, k, repr(e), xh, t), True)
+                if a_ != b_:
+                    res.violation('C07:evaluate-inaccurate:long-lived-operator', dict(curve=cname, iteration=k, elem=describe(e), t=t, x_hat=xh,
+                                  value=float(a_), fresh_operator=float(b_), note='operator created on the mesh of iteration 0, element of the re-created mesh'))
+                    break
     res.notes['worst_rel_error'] = worst
